@@ -47,6 +47,7 @@ func c08Exec(name string, frame []byte, k int, kind env.EndKind, choices []int) 
 }
 
 func c08Once(name string, frame []byte, k int, kind env.EndKind, c *explore.Chooser, E error, log bool) (*core.Finding, *env.Reader) {
+	resetGlobals()
 	r := &env.Reader{Data: frame[:k], End: kind, E: E, C: c, MaxZero: 1, Log: log}
 	p, err, res := readPacket(r, stepBudget(len(frame)))
 	where := "body"
